@@ -304,6 +304,24 @@ pub fn run(tier: &str) -> i32 {
             json!({"threshold": theta, "max_blocks": n, "configuration": "syncing disabled, lazy fees, sync gate on, testnet fee table, watchdog canister, burn_cycles, custom blocks source"}),
         );
     }
+    // a configuration that differs from the network's defaults in the other direction: an
+    // operator's all-zero fee table on mainnet / testnet (zero is a legitimate value and must
+    // survive an upgrade like any other)
+    for net in [Network::Mainnet, Network::Testnet] {
+        let mut alpha = ledger_alphabet(if quick { 2 } else { 3 }, &[1], 0);
+        alpha.bodies = vec![BODY_CB];
+        alpha.upgrades = vec![0, 1];
+        alpha.max_upgrades = 1;
+        let mut cfg = WorldCfg::on(net, 2);
+        cfg.fees = Some(ic_btc_interface::Fees::default());
+        let m = ChainModel { cfg, alpha, oracle: C09 { continuation: 1 } };
+        let e = explore(&m, &Limits::new(2, if quick { 300 } else { 6000 }));
+        rep.absorb(
+            &format!("LEDGER+Upgrade all-zero fee table on {}", net),
+            e,
+            json!({"network": net.to_string(), "configuration": "fees all zero (not the network's default table)"}),
+        );
+    }
     for (net, theta, n, diffs, bodies, sp, budgets, ups, cont) in parts {
         let mut alpha = ledger_alphabet(n, &diffs, sp);
         alpha.bodies = bodies.clone();
